@@ -234,11 +234,16 @@ func (tpl *Template) ExecuteBlocks(context Context, blocks []string) (map[string
 	var parents []*Template
 	result := make(map[string]string)
 
+	// The context is checked also when none of the blocks exists
+	if _, _, err := tpl.newContextForExecution(context); err != nil {
+		return nil, err
+	}
+
 	parent := tpl
 	for parent != nil {
 		// We only want to execute the template if it has a block we want
 		for _, block := range blocks {
-			if _, ok := tpl.blocks[block]; ok {
+			if _, ok := parent.blocks[block]; ok {
 				parents = append(parents, parent)
 				break
 			}
